@@ -72,6 +72,8 @@ def make_ops(w, full):
                 (b'LOCATE 25,1', ('L', 25, 1)), (b'LOCATE 24,%d' % w, ('L', 24, w)), (b'LOCATE 3,1', ('L', 3, 1)),
                 (b'CLS', ('S', 'CLS')), (b'VIEW PRINT 2 TO 4', ('V', 2, 4)), (b'VIEW PRINT', ('V', None, None)),
                 (b'VIEW PRINT 4 TO 2', ('V', 4, 2)),
+                # the default rows written out: a window all the same (the bottom row stays outside it)
+                (b'VIEW PRINT 1 TO 24', ('V', 1, 24)),
                 (b'WIDTH 40', ('S', 'WIDTH')), (b'WIDTH 80', ('S', 'WIDTH'))]
     lens = (1, w - 1, w, w + 1, 2 * w) if full else (1, w - 1, w, w + 1)
     for i, n in enumerate(lens):
@@ -97,6 +99,7 @@ def make_ops(w, full):
     ops.append((b'VIEW PRINT', ('V', None, None)))
     # bottom above top: refused
     ops.append((b'VIEW PRINT 4 TO 2', ('V', 4, 2)))
+    ops.append((b'VIEW PRINT 1 TO 24', ('V', 1, 24)))
     if full:
         ops.append((b'WIDTH 40', ('S', 'WIDTH')))
         ops.append((b'WIDTH 80', ('S', 'WIDTH')))
